@@ -12,7 +12,7 @@ from vlib.gen import graphs as H
 PID = "C10"
 TITLE = "Spanning trees and forests span, are acyclic, and respect exclusions"
 LEAN_MODULES = ["Mouette.Props.C10", "Mouette.Props.C10Kruskal", "Mouette.Props.C10KruskalMin", "Mouette.Props.C10Orient",
-                "Mouette.Props.C10Bridge", "Mouette.Props.C10Source"]
+                "Mouette.Props.C10Bridge", "Mouette.Props.C10Source", "Mouette.Props.C10Forest"]
 REQUIRED_THEOREMS = ["bfs_terminates", "parent_children_consistent", "tree_edges_are_adjacencies", "edge_count",
                      "reached_eq_component", "bfs_min_hops", "traverse_once_parent_first", "forest_one_tree_per_component",
                      "kruskal_spanning_forest", "kruskal_sort_sorted", "kruskal_minimum", "orient_spec", "kruskal_forest",
@@ -29,7 +29,9 @@ REQUIRED_THEOREMS = ["bfs_terminates", "parent_children_consistent", "tree_edges
                      "forest_traverse_once", "source_face_tree_spec", "source_cell_tree_spec", "source_forest_spec", "source_mst_spec",
                      # round 5: constructors, computed flag, exported polylines, Kruskal on the UnionFind class as translated (C20)
                      "bridge_computed_flag", "bridge_constructors", "polyline_edge_has_tree_edges", "polyline_face_has_tree_edges",
-                     "kruskalStepUF_bridge", "bridge_kruskal_uf", "bridge_ufCtor", "kruskal_uf_eq"]
+                     "kruskalStepUF_bridge", "bridge_kruskal_uf", "bridge_ufCtor", "kruskal_uf_eq",
+                     # round 6: Euler-free forest facts packaged for C16 (Props/C10Forest.lean)
+                     "bfs_parent_forest"]
 
 _T, _B = "mouette/processing/trees/", "mouette/utils/unionfind.py::UnionFind."
 _VIS = "out-of-scope: debug / visualisation export, not part of the statement"
